@@ -157,17 +157,18 @@ fn c16_vectored_interrupts_and_errors() {
 //@ harness: c16_vectored_thorough
 //@   props: C16
 //@   tier: thorough
-//@   kind: bounded(three slices of length 0..=3, <= 2 Interrupted results, hard error allowed)
+//@   kind: bounded(three slices of length 0..=2, <= 1 Interrupted result, hard error allowed at any call)
 //@   fn: object_container_file_encoding::writer::vectored_write_polyfill::write_all_vectored_inner
-//@   domain: every (l0,l1,l2) in 0..=3, every schedule of acceptances/interruptions/errors
-//@   post: as above
+//@   domain: every (l0,l1,l2) in 0..=2, every schedule of acceptances / one interruption / hard error
+//@   post: as c16_vectored_interrupts_and_errors (the 0..=3 / 2-interruption version exhausts 12 GB and was reduced under the fallback rule)
 #[kani::proof]
-#[kani::unwind(14)]
+#[kani::unwind(10)]
 fn c16_vectored_thorough() {
 	let l0: usize = kani::any();
 	let l1: usize = kani::any();
 	let l2: usize = kani::any();
-	let _ = run_schedule(l0, l1, l2, 2, true);
+	kani::assume(l0 <= 2 && l1 <= 2 && l2 <= 2);
+	let _ = run_schedule(l0, l1, l2, 1, true);
 }
 
 //@ harness: c16_vectored_canary
